@@ -14,5 +14,6 @@ for batch in "C01 C02 C03 C04 C05 C06 C07" "C08 C09 C10 C11 C12 C13 C14" "C15 C1
   for p in $batch; do ( "${GOVC_BIN:-/verif/bin/govc}" check $p --tier quick -repo "$W/r" > "$VERIF_OUT_DIR/$p.log" 2>&1; echo "$p $?" > "$VERIF_OUT_DIR/$p.rc" ) & done; wait
 done
 for f in "$VERIF_OUT_DIR"/*.rc; do read p rc < "$f"; if [ "$rc" != 0 ]; then bad=1; echo "ALARM $N $p rc=$rc: $(grep -E '^(VIOLATION|ENGINE)' "$VERIF_OUT_DIR/$p.log" | head -3 | tr '\n' ' ')"; fi; done
+rm -rf "$VERIF_OUT_DIR/smt"   # kept queries of the run are large and not needed afterwards
 [ $bad -eq 0 ] && echo "quiet $N"
 exit $bad
